@@ -1,0 +1,1017 @@
+package htmldoc
+
+import (
+	"bytes"
+	"fmt"
+	"sort"
+	"strings"
+
+	"golang.org/x/net/html"
+)
+
+// maxNestingDepth bounds how deeply elements may be nested. Tree construction
+// in golang.org/x/net/html is quadratic in the nesting depth (20000 nested
+// <ul><li> - 160 KB - take about ten seconds), so far deeper nesting than any
+// real page uses is refused up front.
+const maxNestingDepth = 2000
+
+// checkNestingDepth makes a linear pass over the tags and fails when the
+// parser would have more than maxNestingDepth elements open at once.
+//
+// The count follows the rules by which the parser opens and closes elements,
+// because a plain "start tags minus end tags" is easy to mislead: an end tag
+// that matches nothing open (<div></x><div></x>...) closes nothing, <div/>
+// opens a div, an end tag is ignored while a block element is open inside
+// the element it names (<span><div></span>), and a formatting element that
+// is closed by its parent's end tag (<div><b></div>) stays active and is
+// opened again in the next block. Wherever the rules need more context than
+// this pass keeps (table rows and cells, paragraphs), it leans towards
+// counting an element as open.
+func checkNestingDepth(data []byte) error {
+	// Whether the parser honours a <frameset> tag, and from then on ignores
+	// everything but framesets, depends on all that came before it. The pass
+	// below reads the document as if it honoured none; framesets are few, so
+	// every one that is spelled out counts as nested in the previous one.
+	framesets := bytes.Count(bytes.ToLower(data), []byte("<frameset"))
+	if framesets > maxNestingDepth || measureNesting(data, maxNestingDepth) > maxNestingDepth {
+		return fmt.Errorf("elements nested deeper than %d levels", maxNestingDepth)
+	}
+	return nil
+}
+
+// measureNesting returns the largest number of elements open at once; it
+// stops reading as soon as that number exceeds limit.
+func measureNesting(data []byte, limit int) int {
+	z := html.NewTokenizer(bytes.NewReader(data))
+	var open openStack
+	deepest := 0
+	for {
+		z.AllowCDATA(open.topNamespace() != nsHTML)
+		switch tt := z.Next(); tt {
+		case html.ErrorToken:
+			return deepest
+		case html.TextToken:
+			if open.floating {
+				open.text(strings.TrimLeft(string(z.Raw()), " \t\r\n\f") == "")
+			}
+		case html.StartTagToken, html.SelfClosingTagToken:
+			name, hasAttr := z.TagName()
+			tag := startTag{name: string(name), selfClosing: tt == html.SelfClosingTagToken}
+			if hasAttr && (formattingElements[tag.name] || tag.name == "annotation-xml") {
+				tag.readAttributes(z)
+			}
+			if open.startTag(tag) {
+				// the parser reads the content of a foreign <title> or <style>,
+				// and of a <style> it ignores inside <select>, as markup
+				z.NextIsNotRawText()
+			}
+			if open.depth() > deepest {
+				deepest = open.depth()
+				if deepest > limit {
+					return deepest
+				}
+			}
+		case html.EndTagToken:
+			name, _ := z.TagName()
+			open.endTag(string(name))
+		}
+	}
+}
+
+const (
+	nsHTML = iota
+	nsSVG
+	nsMathML
+)
+
+// openElement is an element the parser has, or may have, open.
+type openElement struct {
+	name          string
+	ns            uint8
+	formatting    bool   // a, b, i, ...: stays active until its own end tag
+	floating      bool   // formatting element whose parent was closed: opened again by the next text or tag
+	attrs         string // of a formatting element
+	born          int    // time at which the element was opened
+	selectInTable bool   // a <select> opened inside a table
+
+	// for a <table>, and a <template> whose content is that of a table:
+	table      uint8  // which part of the table is open (tableXxx)
+	section    string // open tbody, thead or tfoot
+	row        bool   // a tr is open
+	cell       string // open td or th
+	marker     int    // time at which the cell or caption began
+	htmlInside bool   // foreign element whose content is parsed as HTML
+	textInside bool   // MathML mi, mo, mn, ms, mtext
+}
+
+type openStack struct {
+	elems []openElement
+	clock int // counts the elements opened so far
+	// lost is set by an SVG or MathML element with the name of an HTML element
+	// that governs how the parser reads what follows (<svg><tr>): the parser
+	// mistakes it for that element. From there on every tag counts as
+	// opening an element that stays open, counted in extra.
+	lost  bool
+	extra int
+	names map[string]int // open elements per name
+	// floating is set while formatting elements whose parent was closed wait
+	// to be opened again by the next text or tag
+	floating bool
+}
+
+type startTag struct {
+	name        string
+	selfClosing bool
+	fontAttr    bool   // <font> with color, face or size
+	htmlAttr    bool   // <annotation-xml> with an HTML encoding
+	attrs       string // all attributes, sorted
+}
+
+func (t *startTag) readAttributes(z *html.Tokenizer) {
+	var all []string
+	defer func() {
+		sort.Strings(all)
+		t.attrs = strings.Join(all, "\x00")
+	}()
+	for {
+		key, val, more := z.TagAttr()
+		all = append(all, string(key)+"\x00"+string(val))
+		switch k := string(key); {
+		case t.name == "font" && (k == "color" || k == "face" || k == "size"):
+			t.fontAttr = true
+		case t.name == "annotation-xml" && k == "encoding":
+			v := strings.ToLower(string(val))
+			t.htmlAttr = t.htmlAttr || v == "text/html" || v == "application/xhtml+xml"
+		}
+		if !more {
+			return
+		}
+	}
+}
+
+// push opens an element. Floating formatting elements stay on top: they
+// will be opened again inside it.
+func (s *openStack) push(e openElement) {
+	if s.names == nil {
+		s.names = make(map[string]int)
+	}
+	s.names[e.name]++
+	s.clock++
+	e.born = s.clock
+	s.elems = append(s.elems, e)
+	for i := len(s.elems) - 1; i > 0 && s.elems[i-1].floating; i-- {
+		s.elems[i], s.elems[i-1] = s.elems[i-1], s.elems[i]
+	}
+}
+
+// truncate closes the element at index i and everything inside it. Formatting
+// elements inside it stay active: the parser opens them again.
+func (s *openStack) truncate(i int) { s.truncateSince(i, int(^uint(0)>>1)) }
+
+// truncateSince is truncate for the end of a cell, caption, <object>, ...:
+// formatting elements opened after it began (at time marker) end with it.
+func (s *openStack) truncateSince(i, marker int) {
+	kept := s.elems[:i]
+	for _, e := range s.elems[i:] {
+		if e.formatting && e.ns == nsHTML && e.born <= marker {
+			e.floating = true
+			kept = append(kept, e)
+			s.floating = true
+		} else {
+			s.names[e.name]--
+		}
+	}
+	s.elems = kept
+}
+
+func (s *openStack) remove(i int) {
+	s.names[s.elems[i].name]--
+	s.elems = append(s.elems[:i], s.elems[i+1:]...)
+}
+
+// text opens the floating formatting elements again where the parser does
+// that for text.
+func (s *openStack) text(blank bool) {
+	if s.contentNamespace("") == nsHTML && s.inSelect() < 0 && !(blank && s.fosterParented()) {
+		s.settle()
+	}
+}
+
+// settle opens the floating formatting elements again.
+func (s *openStack) settle() {
+	if s.floating {
+		for i := range s.elems {
+			s.elems[i].floating = false
+		}
+		s.floating = false
+	}
+}
+
+func (s *openStack) depth() int { return len(s.elems) + s.extra }
+
+// topIndex returns the index of the innermost element that is open at this
+// moment, or -1.
+func (s *openStack) topIndex() int {
+	for i := len(s.elems) - 1; i >= 0; i-- {
+		if !s.elems[i].floating {
+			return i
+		}
+	}
+	return -1
+}
+
+func (s *openStack) top() *openElement {
+	if i := s.topIndex(); i >= 0 {
+		return &s.elems[i]
+	}
+	return nil
+}
+
+func (s *openStack) topNamespace() uint8 {
+	if e := s.top(); e != nil {
+		return e.ns
+	}
+	return nsHTML
+}
+
+// contentNamespace tells by which rules a start tag is handled.
+func (s *openStack) contentNamespace(tag string) uint8 {
+	e := s.top()
+	switch {
+	case e == nil || e.ns == nsHTML || e.htmlInside:
+		return nsHTML
+	case e.textInside && tag != "mglyph" && tag != "malignmark":
+		return nsHTML
+	case e.ns == nsMathML && e.name == "annotation-xml" && tag == "svg":
+		return nsHTML
+	}
+	return e.ns
+}
+
+func (e *openElement) special() bool {
+	switch {
+	case e.formatting:
+		return false
+	case e.ns == nsHTML:
+		return specialElements[e.name]
+	}
+	return e.scopeBoundary()
+}
+
+func (e *openElement) scopeBoundary() bool {
+	switch e.ns {
+	case nsHTML:
+		return !e.formatting && scopeElements[e.name]
+	case nsSVG:
+		return e.name == "foreignobject" || e.name == "desc" || e.name == "title"
+	}
+	return e.textInside || e.name == "annotation-xml"
+}
+
+// inSelect returns the index of the <select> whose content is being read.
+func (s *openStack) inSelect() int {
+	for i := s.topIndex(); i >= 0; i-- {
+		e := &s.elems[i]
+		if e.ns != nsHTML || e.formatting {
+			break
+		}
+		if e.name == "select" {
+			return i
+		}
+		if e.name != "option" && e.name != "optgroup" {
+			break
+		}
+	}
+	return -1
+}
+
+// topIs reports whether the innermost open element is the HTML element name.
+func (s *openStack) topIs(name string) bool {
+	e := s.top()
+	return e != nil && e.ns == nsHTML && !e.formatting && e.name == name
+}
+
+func (s *openStack) pop() { s.truncate(s.topIndex()) }
+
+// States of a table. Rows, cells and sections are not kept as open elements
+// of their own: whatever is open above the table is the content of its
+// innermost open part.
+const (
+	tableNone    = iota // a <template> that has no content yet
+	tableBody           // a <template> whose content is not that of a table
+	tableOfCols         // a <template> of <col> elements: all else is ignored
+	tableItself         // directly inside <table>
+	tableCaption        // inside <caption>
+	tableColumns        // inside <colgroup>
+	tableSection        // inside <tbody>, <thead>, <tfoot>
+	tableRow            // inside <tr>
+	tableCell           // inside <td>, <th>
+)
+
+// tableContext returns the index of the table (or table-like template) whose
+// rows and cells the parser is reading, or -1.
+func (s *openStack) tableContext() int {
+	if s.names["table"] == 0 && s.names["template"] == 0 {
+		return -1
+	}
+	for i := len(s.elems) - 1; i >= 0; i-- {
+		if e := &s.elems[i]; e.ns == nsHTML && !e.formatting && (e.name == "table" || e.name == "template") {
+			return i
+		}
+	}
+	return -1
+}
+
+func (s *openStack) inTable() bool {
+	i := s.tableContext()
+	return i >= 0 && s.elems[i].table >= tableItself
+}
+
+// tableContent closes what is open inside the table at index i. Formatting
+// elements opened inside a cell or a caption end with it.
+func (s *openStack) tableContent(i int) {
+	if e := &s.elems[i]; e.table == tableCell || e.table == tableCaption {
+		s.truncateSince(i+1, e.marker)
+	} else {
+		s.truncate(i + 1)
+	}
+}
+
+// openCell notes where the content of a cell or caption begins.
+func (s *openStack) openCell(i int, state uint8, name string) {
+	e := &s.elems[i]
+	e.table, e.cell, e.marker = state, name, s.clock
+}
+
+// startTablePart handles <caption>, <colgroup>, <col>, <tbody>, <thead>,
+// <tfoot>, <tr>, <td> and <th> the way the parser does: the open parts of the
+// table are closed one after the other until the new one fits.
+func (s *openStack) startTablePart(name string) {
+	i := s.tableContext()
+	if i < 0 || s.elems[i].table == tableBody {
+		return // not in a table: ignored
+	}
+	if e := &s.elems[i]; e.table == tableNone {
+		// the first tag in a <template> tells what its content is
+		switch name {
+		case "tr":
+			e.table = tableSection
+		case "td", "th":
+			e.table = tableRow
+		case "col":
+			e.table = tableOfCols
+		default:
+			e.table = tableItself
+		}
+	}
+	if s.elems[i].table == tableOfCols {
+		return
+	}
+	isCell := name == "td" || name == "th"
+	for {
+		e := &s.elems[i]
+		switch e.table {
+		case tableCell, tableCaption:
+			if e.table == tableCaption && name == "th" {
+				return // x/net/html does not let <th> end a caption
+			}
+			s.tableContent(i)
+			if e.table == tableCell {
+				e.table, e.cell = tableRow, ""
+			} else {
+				e.table = tableItself
+			}
+		case tableColumns:
+			if name == "col" {
+				return
+			}
+			e.table = tableItself
+		case tableRow:
+			if isCell {
+				s.tableContent(i)
+				s.openCell(i, tableCell, name)
+				return
+			}
+			if !e.row {
+				return // a <template> of cells: ignored
+			}
+			s.tableContent(i)
+			e.table, e.row = tableSection, false
+		case tableSection:
+			if name == "tr" || isCell {
+				s.tableContent(i)
+				e.table, e.row = tableRow, true
+				if name == "tr" {
+					return
+				}
+				continue
+			}
+			if e.section == "" {
+				return // a <template> of rows: ignored
+			}
+			s.tableContent(i)
+			e.table, e.section = tableItself, ""
+		default:
+			s.tableContent(i)
+			switch name {
+			case "caption":
+				s.openCell(i, tableCaption, "")
+			case "colgroup", "col":
+				e.table = tableColumns
+			case "tbody", "thead", "tfoot":
+				e.table, e.section = tableSection, name
+			default:
+				e.table, e.section = tableSection, "tbody"
+				continue
+			}
+			return
+		}
+	}
+}
+
+// endTablePart handles the end tags of the parts of a table and </table>. It
+// reports false when the parser ignores the tag.
+func (s *openStack) endTablePart(name string, try bool) bool {
+	i := s.tableContext()
+	if i < 0 || s.elems[i].table < tableItself {
+		return false
+	}
+	e := &s.elems[i]
+	var next uint8
+	switch name {
+	case "td", "th":
+		if e.table != tableCell || e.cell != name {
+			return false
+		}
+		next = tableRow
+	case "tr":
+		if !e.row || e.table < tableRow {
+			return false
+		}
+		next = tableSection
+	case "tbody", "thead", "tfoot":
+		if e.section != name || e.table < tableSection {
+			return false
+		}
+		next = tableItself
+	case "caption":
+		if e.table != tableCaption {
+			return false
+		}
+		next = tableItself
+	case "colgroup":
+		if e.table != tableColumns {
+			return false
+		}
+		next = tableItself
+	case "table":
+		if e.name != "table" {
+			return false
+		}
+		if !try {
+			s.tableContent(i)
+			s.truncate(i)
+		}
+		return true
+	default:
+		return false
+	}
+	if try {
+		return true
+	}
+	s.tableContent(i)
+	e = &s.elems[i]
+	e.table = next
+	if next < tableCell {
+		e.cell = ""
+	}
+	if next < tableRow {
+		e.row = false
+	}
+	if next < tableSection {
+		e.section = ""
+	}
+	return true
+}
+
+// startTag opens what the tag opens and closes what it implies closed. It
+// reports whether the tokenizer must be kept from reading raw text next.
+func (s *openStack) startTag(t startTag) (notRawText bool) {
+	if s.lost {
+		s.extra++
+	}
+	if ns := s.contentNamespace(t.name); ns != nsHTML {
+		if !(foreignBreakout[t.name] || t.name == "font" && t.fontAttr) {
+			if misleadingInForeign[t.name] {
+				s.lost = true
+			}
+			if !t.selfClosing {
+				s.push(openElement{name: t.name, ns: uint8(ns),
+					htmlInside: ns == nsSVG && (t.name == "foreignobject" || t.name == "desc" || t.name == "title") ||
+						ns == nsMathML && t.name == "annotation-xml" && t.htmlAttr,
+					textInside: ns == nsMathML && (t.name == "mi" || t.name == "mo" || t.name == "mn" || t.name == "ms" || t.name == "mtext")})
+			}
+			return true
+		}
+		s.leaveForeign()
+	}
+	if i := s.inSelect(); i >= 0 {
+		switch {
+		case t.name == "select":
+			s.truncate(i)
+			return false
+		case t.name == "input" || t.name == "keygen" || t.name == "textarea":
+			s.truncate(i)
+		case endsSelectInTable[t.name]:
+			if !s.elems[i].selectInTable {
+				return false
+			}
+			s.truncate(i)
+		case t.name == "script" || t.name == "template" || t.name == "option":
+		case t.name == "optgroup":
+			if s.topIs("option") {
+				s.pop()
+			}
+			if s.topIs("optgroup") {
+				s.pop()
+			}
+		case ignoredRawInSelect[t.name]:
+			return true
+		default:
+			return false // ignored
+		}
+	}
+
+	if i := s.tableContext(); i >= 0 && !tableParts[t.name] && t.name != "col" {
+		switch e := &s.elems[i]; {
+		case e.table == tableOfCols && t.name != "template":
+			return false // ignored
+		case e.table == tableNone && !templateHead[t.name]:
+			e.table = tableBody
+		case e.table == tableColumns && t.name != "template":
+			e.table = tableItself
+		}
+	}
+
+	if t.name == "li" {
+		s.closeListItem("li", "li")
+	} else if t.name == "dd" || t.name == "dt" {
+		s.closeListItem("dd", "dt")
+	}
+	if closesParagraph[t.name] {
+		s.closeParagraph()
+	}
+	if e := s.top(); isHeading(t.name) && e != nil && e.ns == nsHTML && !e.formatting && isHeading(e.name) {
+		s.pop()
+	}
+
+	// what the tag closes is closed first; then floating formatting elements
+	// are opened again, unless the tag opens a block
+	reopen := !closesParagraph[t.name] && !opensWithoutFormatting[t.name] || t.name == "xmp"
+	elem := openElement{name: t.name}
+	switch name := t.name; {
+	case name == "svg" || name == "math":
+		if t.selfClosing {
+			elem.name = ""
+		} else if elem.ns = nsSVG; name == "math" {
+			elem.ns = nsMathML
+		}
+	case tableParts[name] || name == "col":
+		s.startTablePart(name)
+		return false
+	case voidElements[name] || uncountedElements[name]:
+		// consecutive ones are siblings: the parser closes the previous one
+		elem.name = ""
+	case name == "table":
+		if i := s.tableContext(); i >= 0 {
+			if e := &s.elems[i]; e.table >= tableItself && e.table != tableCaption && e.table != tableCell {
+				// a <table> directly inside a table ends that one
+				if e.name != "table" {
+					return false
+				}
+				s.endTablePart("table", false)
+			}
+		}
+		elem.table = tableItself
+	case name == "form" && s.fosterParented():
+		return false // opened and closed at once
+	case name == "option" || name == "optgroup":
+		if s.topIs("option") {
+			s.pop()
+		}
+	case name == "rb" || name == "rtc":
+		if s.inScope("ruby") {
+			s.impliedEndTags("")
+		}
+	case name == "rp" || name == "rt":
+		if s.inScope("ruby") {
+			s.impliedEndTags("rtc")
+		}
+	case formattingElements[name]:
+		if name == "nobr" {
+			s.settle()
+		}
+		if name == "a" || name == "nobr" && s.formattingInScope(name) {
+			s.endFormatting(name)
+		}
+		s.settle()
+		s.limitIdentical(name, t.attrs)
+		elem.formatting, elem.attrs = true, t.attrs
+	case name == "button":
+		if s.inScope(name) {
+			s.endTag(name)
+		}
+	case name == "select":
+		elem.selectInTable = s.inTable()
+	}
+	if reopen {
+		s.settle()
+	}
+	if elem.name != "" {
+		s.push(elem)
+	}
+	return false
+}
+
+// fosterParented reports whether new content lands directly in a table,
+// outside its cells and caption.
+func (s *openStack) fosterParented() bool {
+	if i := s.tableContext(); i >= 0 {
+		t := s.elems[i].table
+		return t >= tableItself && t != tableCaption && t != tableCell
+	}
+	return false
+}
+
+// leaveForeign closes the open SVG and MathML elements down to the innermost
+// HTML element or integration point.
+func (s *openStack) leaveForeign() {
+	for i := len(s.elems) - 1; i >= 0; i-- {
+		if e := &s.elems[i]; !e.floating && (e.ns == nsHTML || e.htmlInside || e.textInside) {
+			s.truncate(i + 1)
+			return
+		}
+	}
+	s.truncate(0)
+}
+
+// impliedEndTags closes the innermost elements as long as their end tag is
+// optional.
+func (s *openStack) impliedEndTags(except string) {
+	for {
+		e := s.top()
+		if e == nil || e.ns != nsHTML || e.formatting || !impliedEnd[e.name] || e.name == except {
+			return
+		}
+		s.pop()
+	}
+}
+
+// inScope reports whether an HTML element of that name is open and can be
+// reached by an end tag.
+func (s *openStack) inScope(name string) bool {
+	if s.names[name] == 0 {
+		return false
+	}
+	for i := len(s.elems) - 1; i >= 0; i-- {
+		e := &s.elems[i]
+		switch {
+		case e.formatting:
+		case e.ns == nsHTML && e.name == name:
+			return true
+		case e.scopeBoundary():
+			return false
+		}
+	}
+	return false
+}
+
+// formattingInScope reports whether a formatting element of that name is
+// open and can be reached by an end tag.
+func (s *openStack) formattingInScope(name string) bool {
+	if s.names[name] == 0 {
+		return false
+	}
+	for i := len(s.elems) - 1; i >= 0; i-- {
+		e := &s.elems[i]
+		switch {
+		case e.formatting && e.name == name && e.ns == nsHTML:
+			return true
+		case !e.formatting && e.scopeBoundary():
+			return false
+		}
+	}
+	return false
+}
+
+// limitIdentical applies the parser's limit of three active formatting
+// elements with the same name and attributes since the last marker (the
+// start of a cell, caption, <object>, ...): with a fourth one, the oldest
+// stops being active. It stays open if it is open at the moment.
+func (s *openStack) limitIdentical(name, attrs string) {
+	if s.names[name] < 3 {
+		return
+	}
+	marker := 0
+	if i := s.tableContext(); i >= 0 {
+		if e := &s.elems[i]; e.table == tableCell || e.table == tableCaption {
+			marker = e.marker
+		}
+	}
+	for i := range s.elems {
+		if e := &s.elems[i]; e.ns == nsHTML && !e.formatting && e.born > marker &&
+			(e.name == "applet" || e.name == "object" || e.name == "marquee" || e.name == "template") {
+			marker = e.born
+		}
+	}
+	// from the youngest to the oldest
+	var same []int
+	for i := range s.elems {
+		if e := &s.elems[i]; e.ns == nsHTML && e.formatting && e.born > marker && e.name == name && e.attrs == attrs {
+			same = append(same, i)
+		}
+	}
+	sort.Slice(same, func(a, b int) bool { return s.elems[same[a]].born > s.elems[same[b]].born })
+	var gone []int
+	for k, i := range same {
+		if k >= 2 {
+			if e := &s.elems[i]; e.floating {
+				gone = append(gone, i)
+			} else {
+				e.formatting = false
+			}
+		}
+	}
+	sort.Sort(sort.Reverse(sort.IntSlice(gone)))
+	for _, i := range gone {
+		s.remove(i)
+	}
+}
+
+// buttonScope returns the index of the open HTML element of that name, if an
+// end tag can reach it, and -1 otherwise.
+func (s *openStack) buttonScope(name string) int {
+	if s.names[name] == 0 {
+		return -1
+	}
+	for i := len(s.elems) - 1; i >= 0; i-- {
+		e := &s.elems[i]
+		switch {
+		case e.formatting:
+		case e.ns == nsHTML && e.name == name:
+			return i
+		case e.scopeBoundary() || e.ns == nsHTML && e.name == "button":
+			return -1
+		}
+	}
+	return -1
+}
+
+func (s *openStack) inButtonScope(name string) bool { return s.buttonScope(name) >= 0 }
+
+// closeParagraph ends the open <p>, if an end tag can reach it.
+func (s *openStack) closeParagraph() {
+	if i := s.buttonScope("p"); i >= 0 {
+		s.truncate(i)
+	}
+}
+
+func isHeading(name string) bool {
+	return len(name) == 2 && name[0] == 'h' && name[1] >= '1' && name[1] <= '6'
+}
+
+// closeListItem applies the rule for <li> (and <dd>, <dt>): an open item is
+// closed unless a block other than address, div or p was opened inside it.
+func (s *openStack) closeListItem(a, b string) {
+	if s.names[a] == 0 && s.names[b] == 0 {
+		return
+	}
+	for i := len(s.elems) - 1; i >= 0; i-- {
+		e := &s.elems[i]
+		switch {
+		case e.formatting:
+		case e.ns == nsHTML && (e.name == a || e.name == b):
+			s.truncate(i)
+			return
+		case e.ns == nsHTML && (e.name == "address" || e.name == "div" || e.name == "p"):
+		case e.special():
+			return
+		}
+	}
+}
+
+// endFormatting handles the end tag of a formatting element. It reports false
+// when no such element is active.
+func (s *openStack) endFormatting(name string) bool {
+	if s.names[name] == 0 {
+		return false
+	}
+	blocked := false
+	blocks, lastBlock := 0, -1 // blocks opened inside the element, and the innermost of them
+	for i := len(s.elems) - 1; i >= 0; i-- {
+		e := &s.elems[i]
+		switch {
+		case e.formatting && e.name == name:
+			switch {
+			case blocked:
+			case e.floating:
+				s.remove(i)
+			case blocks == 0:
+				s.truncate(i + 1)
+				s.remove(i)
+			case blocks < 8:
+				// the element is closed and opened again inside each of the
+				// blocks in turn; what is open inside the innermost ends,
+				// and so do the plain elements between the blocks
+				s.truncate(lastBlock + 1)
+				for k := lastBlock - 1; k >= i; k-- {
+					if between := &s.elems[k]; k == i || !between.formatting && !between.special() {
+						s.remove(k)
+					}
+				}
+			}
+			return true
+		case e.formatting:
+		case e.scopeBoundary():
+			if e.ns == nsHTML {
+				return false // a marker: elements before it are out of reach
+			}
+			blocked = true
+		case e.special():
+			if blocks++; lastBlock < 0 {
+				lastBlock = i
+			}
+		}
+	}
+	return false
+}
+
+func (s *openStack) endTag(name string) {
+	if (name == "p" || name == "br") && s.contentNamespace(name) != nsHTML {
+		if name == "p" && s.inButtonScope("p") {
+			s.closeParagraph()
+		} else {
+			// the parser supplies a start tag, which ends the foreign content
+			s.leaveForeign()
+		}
+		return
+	}
+	if i := s.inSelect(); i >= 0 {
+		switch {
+		case name == "select":
+			s.truncate(i)
+			return
+		case name == "template":
+		case endsSelectInTable[name]:
+			if !s.elems[i].selectInTable || !s.endTablePart(name, true) {
+				return
+			}
+			s.truncate(i)
+		case name == "option":
+			if s.topIs("option") {
+				s.pop()
+			}
+			return
+		case name == "optgroup":
+			if j := s.topIndex(); s.topIs("option") && j > 0 && s.elems[j-1].name == "optgroup" && s.elems[j-1].ns == nsHTML {
+				s.pop()
+			}
+			if s.topIs("optgroup") {
+				s.pop()
+			}
+			return
+		default:
+			return
+		}
+	}
+	if i := s.tableContext(); i >= 0 && s.elems[i].table == tableOfCols && name != "template" && s.contentNamespace("") == nsHTML {
+		return // ignored
+	}
+	heading := isHeading(name)
+	switch {
+	case name == "br":
+		s.settle() // read as <br>
+		return
+	case name == "p":
+		s.closeParagraph()
+		return
+	case name == "table" || tableParts[name]:
+		if s.endTablePart(name, false) || name != "table" {
+			return
+		}
+	case voidElements[name] || uncountedElements[name]:
+		return
+	case heading:
+	case s.names[name] == 0:
+		return
+	case formattingElements[name] && s.endFormatting(name):
+		return
+	}
+	// while only SVG and MathML elements are passed, the name alone decides
+	for i := s.topIndex(); i >= 0 && s.elems[i].ns != nsHTML; i-- {
+		if s.elems[i].name == name {
+			s.truncate(i)
+			return
+		}
+	}
+	passedHTML := false
+	for i := len(s.elems) - 1; i >= 0; i-- {
+		e := &s.elems[i]
+		if e.ns == nsHTML {
+			passedHTML = true
+		}
+		if e.formatting {
+			continue
+		}
+		if e.ns == nsSVG && passedHTML && svgMixedCase[e.name] {
+			// the parser compares with the element's proper spelling (foreignObject)
+		} else if e.name == name || heading && e.ns == nsHTML && isHeading(e.name) {
+			switch {
+			case name == "form" && e.ns == nsHTML:
+				s.remove(i) // what was opened inside the form stays open
+			case e.ns == nsHTML && (name == "applet" || name == "marquee" || name == "object" || name == "template"):
+				s.truncateSince(i, e.born)
+			default:
+				s.truncate(i)
+			}
+			return
+		}
+		// is the end tag ignored because of this element?
+		switch {
+		case name == "table" || name == "template":
+			if e.ns == nsHTML && e.name == "template" {
+				return
+			}
+		case closedThroughBlocks[name] || heading:
+			if e.scopeBoundary() || name == "li" && e.ns == nsHTML && (e.name == "ol" || e.name == "ul") {
+				return
+			}
+		default:
+			if e.special() {
+				return
+			}
+		}
+	}
+}
+
+func nameSet(names string) map[string]bool {
+	m := make(map[string]bool)
+	for _, n := range strings.Fields(names) {
+		m[n] = true
+	}
+	return m
+}
+
+var (
+	voidElements = nameSet("area base basefont bgsound br col embed frame hr image img input keygen link meta param source track wbr")
+
+	// elements whose end tag is optional and that never nest in themselves
+	// without another counted element in between
+	uncountedElements = nameSet("html head body frameset caption colgroup tbody tfoot thead tr td th")
+
+	tableParts = nameSet("caption colgroup tbody tfoot thead tr td th")
+
+	formattingElements = nameSet("a b big code em font i nobr s small strike strong tt u")
+
+	// the "special" category of the HTML standard, less the elements above
+	specialElements = nameSet("address applet article aside blockquote button center dd details dir div dl dt fieldset " +
+		"figcaption figure footer form h1 h2 h3 h4 h5 h6 header hgroup iframe li listing main marquee menu nav " +
+		"noembed noframes noscript object ol p plaintext pre script section select style summary table template textarea title ul xmp")
+
+	// elements that end tags do not reach across
+	scopeElements = nameSet("applet marquee object table template")
+
+	// end tags that close the named element together with open blocks inside it
+	closedThroughBlocks = nameSet("address article aside blockquote button center details dialog dir div dl fieldset figcaption " +
+		"figure footer header hgroup listing main menu nav ol pre section summary ul li dd dt form applet marquee object")
+
+	// start tags that end SVG or MathML content
+	foreignBreakout = nameSet("b big blockquote body br center code dd div dl dt em embed h1 h2 h3 h4 h5 h6 head hr i img li " +
+		"listing menu meta nobr ol p pre ruby s small span strong strike sub sup table tt u ul var")
+
+	svgMixedCase = nameSet("altglyph altglyphdef altglyphitem animatecolor animatemotion animatetransform clippath feblend " +
+		"fecolormatrix fecomponenttransfer fecomposite feconvolvematrix fediffuselighting fedisplacementmap fedistantlight " +
+		"feflood fefunca fefuncb fefuncg fefuncr fegaussianblur feimage femerge femergenode femorphology feoffset " +
+		"fepointlight fespecularlighting fespotlight fetile feturbulence foreignobject glyphref lineargradient " +
+		"radialgradient textpath")
+
+	// start tags that end an open paragraph
+	closesParagraph = nameSet("address article aside blockquote center details dialog dir div dl fieldset figcaption figure " +
+		"footer header hgroup main menu nav ol p section summary ul h1 h2 h3 h4 h5 h6 pre listing form li dd dt plaintext hr xmp")
+
+	// further start tags before which floating formatting elements are not
+	// opened again
+	opensWithoutFormatting = nameSet("table param source track iframe noembed noscript noframes script style title template " +
+		"base basefont bgsound link meta rb rtc rp rt caption col colgroup tbody tfoot thead tr td th html head body frameset frame")
+
+	misleadingInForeign = nameSet("select td th tr tbody thead tfoot caption colgroup table template head body frameset html")
+
+	impliedEnd = nameSet("dd dt li optgroup option p rb rp rt rtc")
+
+	endsSelectInTable = nameSet("caption table tbody tfoot thead tr td th")
+
+	// tags that do not tell what the content of a <template> is
+	templateHead = nameSet("base basefont bgsound link meta noframes script style template title")
+
+	ignoredRawInSelect = nameSet("iframe noembed noframes noscript plaintext style title xmp")
+)
